@@ -31,6 +31,8 @@ structure Sys (V α : Type) where
   prec : Nat → V → Option V
   /-- `_calc_def_norm` -/
   nrm : V → α
+  /-- `transp.apply(r, x)` with the transposed system matrix (PCGNR only) -/
+  At : V → V := A
 
 structure Result (V α : Type) where
   status : Status
@@ -78,19 +80,21 @@ def pcgLoop (S : Sys V α) (c : Config α) :
       pcgLoop S c fuel x' r' p' gamma' st' (calls + 1) hist'
 
 /-- `PCG::_apply_intern(vec_sol)` with `_vec_r = r` -/
-def pcgIntern (S : Sys V α) (c : Config α) (x r : V) : Option (Result V α) :=
+def pcgIntern (S : Sys V α) (c : Config α) (prev : State α) (x r : V) : Option (Result V α) :=
   let d0 := S.nrm r
-  let (status, st) := setInitialDefect c true d0
+  let (status, st) := setInitialDefect c prev true d0
   if status ≠ .progress then some ⟨status, x, st, [d0]⟩ else
   match S.prec 0 r with
   | none => some ⟨.aborted, x, st, [d0]⟩
   | some p => pcgLoop S c (fuelOf c) x r p (S.ops.dot r p) st 1 [d0]
 
 /-- `PCG::apply(vec_cor, vec_def)`: the start vector is formatted -/
-def pcgApply (S : Sys V α) (c : Config α) (b : V) : Option (Result V α) := pcgIntern S c S.ops.zero b
+def pcgApply (S : Sys V α) (c : Config α) (prev : State α) (b : V) : Option (Result V α) :=
+  pcgIntern S c prev S.ops.zero b
 
 /-- `PCG::correct(vec_sol, vec_rhs)` -/
-def pcgCorrect (S : Sys V α) (c : Config α) (x0 b : V) : Option (Result V α) := pcgIntern S c x0 (resid S b x0)
+def pcgCorrect (S : Sys V α) (c : Config α) (prev : State α) (x0 b : V) : Option (Result V α) :=
+  pcgIntern S c prev x0 (resid S b x0)
 
 /-! ### Richardson (kernel/solver/richardson.hpp) -/
 
@@ -110,17 +114,17 @@ def richLoop (S : Sys V α) (c : Config α) (omega : α) (b : V) :
       else richLoop S c omega b fuel x' df' st' (calls + 1) hist'
 
 /-- `Richardson::_apply_intern(vec_sol, vec_rhs)` with `_vec_def = df` -/
-def richIntern (S : Sys V α) (c : Config α) (omega : α) (b x df : V) : Option (Result V α) :=
+def richIntern (S : Sys V α) (c : Config α) (prev : State α) (omega : α) (b x df : V) : Option (Result V α) :=
   let d0 := S.nrm df
-  let (status, st) := setInitialDefect c true d0
+  let (status, st) := setInitialDefect c prev true d0
   if status ≠ .progress then some ⟨status, x, st, [d0]⟩
   else richLoop S c omega b (fuelOf c) x df st 0 [d0]
 
-def richApply (S : Sys V α) (c : Config α) (omega : α) (b : V) : Option (Result V α) :=
-  richIntern S c omega b S.ops.zero b
+def richApply (S : Sys V α) (c : Config α) (prev : State α) (omega : α) (b : V) : Option (Result V α) :=
+  richIntern S c prev omega b S.ops.zero b
 
-def richCorrect (S : Sys V α) (c : Config α) (omega : α) (x0 b : V) : Option (Result V α) :=
-  richIntern S c omega b x0 (resid S b x0)
+def richCorrect (S : Sys V α) (c : Config α) (prev : State α) (omega : α) (x0 b : V) : Option (Result V α) :=
+  richIntern S c prev omega b x0 (resid S b x0)
 
 /-! ### PCR (kernel/solver/pcr.hpp) -/
 
@@ -149,9 +153,9 @@ def pcrLoop (S : Sys V α) (c : Config α) :
       let q' := S.ops.axpy (S.ops.scale q beta) y 1
       pcrLoop S c fuel x' r' s' p' q' gamma' st' (calls + 1) hist'
 
-def pcrIntern (S : Sys V α) (c : Config α) (x r : V) : Option (Result V α) :=
+def pcrIntern (S : Sys V α) (c : Config α) (prev : State α) (x r : V) : Option (Result V α) :=
   let d0 := S.nrm r
-  let (status, st) := setInitialDefect c true d0
+  let (status, st) := setInitialDefect c prev true d0
   if status ≠ .progress then some ⟨status, x, st, [d0]⟩ else
   match S.prec 0 r with
   | none => some ⟨.aborted, x, st, [d0]⟩
@@ -159,9 +163,11 @@ def pcrIntern (S : Sys V α) (c : Config α) (x r : V) : Option (Result V α) :=
     let q := S.Fd (S.A s)
     pcrLoop S c (fuelOf c) x r s s q (S.ops.dot s q) st 1 [d0]
 
-def pcrApply (S : Sys V α) (c : Config α) (b : V) : Option (Result V α) := pcrIntern S c S.ops.zero b
+def pcrApply (S : Sys V α) (c : Config α) (prev : State α) (b : V) : Option (Result V α) :=
+  pcrIntern S c prev S.ops.zero b
 
-def pcrCorrect (S : Sys V α) (c : Config α) (x0 b : V) : Option (Result V α) := pcrIntern S c x0 (resid S b x0)
+def pcrCorrect (S : Sys V α) (c : Config α) (prev : State α) (x0 b : V) : Option (Result V α) :=
+  pcrIntern S c prev x0 (resid S b x0)
 
 /-! ### PMR (kernel/solver/pmr.hpp) -/
 
@@ -184,16 +190,68 @@ def pmrLoop (S : Sys V α) (c : Config α) :
       if status ≠ .progress then some ⟨status, x', st', hist'⟩
       else pmrLoop S c fuel x' r' (S.ops.axpy s z (-alpha)) st' (calls + 1) hist'
 
-def pmrIntern (S : Sys V α) (c : Config α) (x r : V) : Option (Result V α) :=
+def pmrIntern (S : Sys V α) (c : Config α) (prev : State α) (x r : V) : Option (Result V α) :=
   let d0 := S.nrm r
-  let (status, st) := setInitialDefect c true d0
+  let (status, st) := setInitialDefect c prev true d0
   if status ≠ .progress then some ⟨status, x, st, [d0]⟩ else
   match S.prec 0 r with
   | none => some ⟨.aborted, x, st, [d0]⟩
   | some s => pmrLoop S c (fuelOf c) x r s st 1 [d0]
 
-def pmrApply (S : Sys V α) (c : Config α) (b : V) : Option (Result V α) := pmrIntern S c S.ops.zero b
+def pmrApply (S : Sys V α) (c : Config α) (prev : State α) (b : V) : Option (Result V α) :=
+  pmrIntern S c prev S.ops.zero b
 
-def pmrCorrect (S : Sys V α) (c : Config α) (x0 b : V) : Option (Result V α) := pmrIntern S c x0 (resid S b x0)
+def pmrCorrect (S : Sys V α) (c : Config α) (prev : State α) (x0 b : V) : Option (Result V α) :=
+  pmrIntern S c prev x0 (resid S b x0)
+
+/-! ### PCGNR (kernel/solver/pcgnr.hpp); the harness passes ONE preconditioner object as left and right
+     preconditioner, so `prec` counts the calls of both -/
+
+def pcgnrLoop (S : Sys V α) (c : Config α) :
+    Nat → V → V → V → V → α → State α → Nat → List α → Option (Result V α)
+  | 0, x, _, _, _, _, st, _, hist => some ⟨.undefined, x, st, hist⟩
+  | fuel + 1, x, r, p, q, gamma, st, calls, hist =>
+    let y := S.Fd (S.A q)
+    match S.prec calls y with
+    | none => some ⟨.aborted, x, st, hist⟩
+    | some z =>
+      let yz := S.ops.dot y z
+      if yz = 0 then none else
+      let alpha := gamma / yz
+      let x' := S.ops.axpy x q alpha
+      let r' := S.ops.axpy r y (-alpha)
+      let d := S.nrm r'
+      let (status, st') := setNewDefect c st true d
+      let hist' := pushHist c st d hist
+      if status ≠ .progress then some ⟨status, x', st', hist'⟩ else
+      let p' := S.ops.axpy p z (-alpha)
+      let s := S.Fd (S.At p')
+      match S.prec (calls + 1) s with
+      | none => some ⟨.aborted, x', st', hist'⟩
+      | some t =>
+        let gamma' := S.ops.dot s t
+        if gamma = 0 then none else
+        let beta := gamma' / gamma
+        let q' := S.ops.axpy (S.ops.scale q beta) t 1
+        pcgnrLoop S c fuel x' r' p' q' gamma' st' (calls + 2) hist'
+
+def pcgnrIntern (S : Sys V α) (c : Config α) (prev : State α) (x r : V) : Option (Result V α) :=
+  let d0 := S.nrm r
+  let (status, st) := setInitialDefect c prev true d0
+  if status ≠ .progress then some ⟨status, x, st, [d0]⟩ else
+  match S.prec 0 r with
+  | none => some ⟨.aborted, x, st, [d0]⟩
+  | some p =>
+    -- note: no `filter_def` on this first transposed product (there is one inside the loop)
+    let s := S.At p
+    match S.prec 1 s with
+    | none => some ⟨.aborted, x, st, [d0]⟩
+    | some q => pcgnrLoop S c (fuelOf c) x r p q (S.ops.dot s q) st 2 [d0]
+
+def pcgnrApply (S : Sys V α) (c : Config α) (prev : State α) (b : V) : Option (Result V α) :=
+  pcgnrIntern S c prev S.ops.zero b
+
+def pcgnrCorrect (S : Sys V α) (c : Config α) (prev : State α) (x0 b : V) : Option (Result V α) :=
+  pcgnrIntern S c prev x0 (resid S b x0)
 
 end FeatModel.Solver
